@@ -26,6 +26,7 @@ func checkC10(c *Ctx, r *Report) {
 	r.rule("C10.R7", "the context a reference is registered in is the one in the pool: after LoadOrStore the request goes on with the stored context (shared with C09.R5) - a reference registered in a private copy designates nothing", 1)
 	r.rule("C10.R8", "the reference keeps designating the record that receives the session's usage: where a session is continued in a new record, the entry under its reference is that new record (shared with C02.R9)", 2)
 	r.rule("C10.R9", "the reference a create answers with is the one it registered its new record under (shared with C12.R1): a create that answers with a reference that exists already hands one session's reference to another", 4)
+	r.rule("C10.R10", "the subscriber pool is read and written under the identifier as received (one key for create, update and release)", 3)
 	r.rule("C10.R3", "ue.Cdr is written only in create (key = the reference) and in update/release under the request's own reference", 1)
 
 	create := c.fn("internal/sbi/processor", "Processor.ChargingDataCreate")
@@ -138,6 +139,29 @@ func checkC10(c *Ctx, r *Report) {
 			switch {
 			case f == create && kind == "store" && keyv == idVal:
 				r.proven("C10.R3", k, posOf(c, ins), "create stores under the reference it returns")
+			case (f == upd || f == rel) && keyv == ssa.Value(paramByName(f, "chargingSessionId")) && kind == "delete":
+				// the reference designates the session until it is released: an update never takes it
+				// away, and a release takes it away only when nothing can make the release fail afterwards
+				if f == upd {
+					r.viol("C10.R3", k, posOf(c, ins), "an update removes the entry of its session from ue.Cdr: the reference stops designating the session although it has not been released")
+					break
+				}
+				after := reachableFrom(ins.Block(), nil, nil, nil)
+				bad := ""
+				for _, ri := range returnsOf(f) {
+					if len(ri.Vals) == 0 || !(after[ri.At] || ri.At == ins.Block()) {
+						continue
+					}
+					for _, lf := range leavesOf(ri.Vals[0]) {
+						if lf.from != nil && !after[lf.from] && lf.from != ins.Block() {
+							continue
+						}
+						if k, isC := lf.val.(*ssa.Const); !isC || k.Value != nil {
+							bad = posOf(c, ri.Ret)
+						}
+					}
+				}
+				r.check(bad == "", "C10.R3", k, posOf(c, ins), "the release removes its own entry and cannot fail afterwards", "the release removes the entry of its session from ue.Cdr and can still fail afterwards (problem returned at "+bad+"): the consumer is told the release did not happen, but its reference designates nothing any more - the retried release and every further update are answered 404")
 			case (f == upd || f == rel) && keyv == ssa.Value(paramByName(f, "chargingSessionId")):
 				r.proven("C10.R3", k, posOf(c, ins), "update/release touch only the entry of the request's own reference")
 			default:
@@ -151,6 +175,7 @@ func checkC10(c *Ctx, r *Report) {
 		fresh, why := freshRecord(c, create, mu.Value, 0)
 		r.check(fresh, "C10.R6", key+"|record registered under the new reference", posOf(c, mu), "every record that can be registered under the new reference is built in this step ("+why+")", "the record registered under the newly allocated reference can be one that exists already ("+why+"): two references then designate one record - updates and the release addressed to either act on the other session's record, and one session never gets a record of its own")
 	}
+	poolKeysAsReceived(c, r, "C10.R10")
 	r.shareFrom(c, checkC09, map[string]string{"C09.R5": "C10.R7"})
 	r.shareFrom(c, checkC02, map[string]string{"C02.R9": "C10.R8"})
 	r.shareFrom(c, checkC12, map[string]string{"C12.R1": "C10.R9"})
@@ -385,6 +410,13 @@ func atomicAllocation(c *Ctx, sa *sharedAnalysis, v ssa.Value, depth int) (bool,
 			return false, "counter owner unknown"
 		}
 		fname := owner.Obj().Name() + "." + fieldName(fa)
+		// the scope of the counter is the scope of the uniqueness it can give: a counter that exists
+		// once per subscriber context (or per request) hands the same numbers to different owners,
+		// and the other components of the reference - subscriber id and consumer name, joined without
+		// a separator - do not tell two owners apart ("imsi-1" + "2smf" = "imsi-12" + "smf")
+		if !sa.singleton(owner.Obj().Name()) {
+			return false, "the counter " + fname + " exists once per " + owner.Obj().Name() + " object, not once per process: the numbers repeat from one " + owner.Obj().Name() + " to the next, and the rest of the reference (subscriber id and consumer name, joined without a separator) is not an injective function of the owner - two subscribers whose ids are prefixes of each other get the same reference"
+		}
 		held, _ := sa.ls.heldAt(x)
 		elig := sa.eligible(owner.Obj().Name())
 		if held&elig == 0 {
